@@ -296,7 +296,7 @@ def run(tier, seed, replay):
     quick = tier == "quick"
 
     # ---- old-grammar programs through Migrator + current Parser; correspondence with the model
-    cases = gen_old_cases(rng, 260 if quick else 5000, lx_old)
+    cases = gen_old_cases(rng, 120 if quick else 5000, lx_old)
     outs = run_old(binary, cases)
     fails = []
     mcases = []
